@@ -35,6 +35,21 @@ claim("C10",
       "Not covered: Code 128 mod-103 and Code 93 C/K checksums, the single-substitution detection lemmas, EAN-2 parity.",
       "strings are canonical ids with length/character functions; strconv.Itoa stubbed (exact for 0..9); range-over-string abstracted (ASCII exact); tables dumped from the compiled package.")
 
-for p in ["C01","C02","C03","C04","C05","C06","C07","C08","C09","C12","C14","C15","C17","C18","C19"]:
+claim("C07",
+      "Table and formula obligations over the compiled QR tables, each proved for every entry (by cases over the dumped tables, decided by the SMT solvers): total codewords of all 40 versions = "
+      "raw modules/8 by the standard's closed form; at each of the four levels the block groups add up to that total, second group one data codeword longer; capacity ordering; anchor capacities; "
+      "alignment centres (count v/7+2, first 6, last 4v+10, even equal steps) and the encoder's padded copy of them; all 32 format words and 34 version words equal the BCH remainder with "
+      "generator 0x537 / 0x1f25 (mask 0x5412); the encoder's block-size arithmetic reproduces every table row. Function contracts: the eight decoder mask predicates and "
+      "MaskUtil_getDataMaskBit are proved equal to the ISO mask formulas; getNumDataBytesAndNumECBytesForBlockID is proved against its arithmetic specification. "
+      "Not decided: EC block counts against the standard's table entry by entry (no independent copy; the structural invariants pin every entry up to compensating errors), "
+      "calculateBCHCode itself, function-pattern embedding, and matrix_lib == matrix_ref for whole symbols.",
+      "tables dumped from the compiled package on every run; products of symbolic integers uninterpreted in function VCs (mask 5-7 claims are conditional on i*j >= 0).")
+claim("C05",
+      "Narrow claim: the pairwise Hamming distance of the 32 format words is >= 7 and of the 34 version words >= 8 (all pairs, over the compiled tables), so up to three flipped bits leave "
+      "the original word the unique nearest entry; FormatInformation_NumBitsDiffering is proved to be the Hamming distance (64-bit vectors). "
+      "Not decided here: the nearest-entry search loops themselves, Reed-Solomon correction (see C04), de-interleaving, and the end-to-end statement over placed modules.",
+      "tables dumped from the compiled package; math/bits.OnesCount given its defining bitwise specification.")
+
+for p in ["C01","C02","C03","C04","C06","C08","C09","C12","C14","C15","C17","C18","C19"]:
     na(p, NOTYET)
 na("C11", "The library has no Aztec writer: 'conforming symbol' would have to be a hand-written restatement of ISO/IEC 24778 (a model, not the code), and the image-to-bits path is a float-geometry detector; no contract on one call of the real code expresses the property. The Aztec decoder's totality is covered under C06.")
